@@ -174,9 +174,13 @@ def gen_plan(seed, cfg):
                                    "compile_evaluate": rng.randint(1, 3)}
         sp.pop("change_points", None)
     sp["global_points"] = True  # setters of process-global interpreter state are yield points
+    # the kernel cache holds 128 methods, so eviction never runs with a handful of problems: in a share
+    # of the runs its capacity is 1 or 2 (a method is evicted while another thread is still inside it)
+    cache_size = rng.choice([128] * 8 + [1, 2])
     plan = {"engine": "T", "run_seed": seed, "hashseed": seed % 8, "n": n, "mode": mode, "problems": problems,
             "threads": threads, "data": data, "sched": sp, "heap": hk,
-            "capacity": rng.choice([1, 1, 2, 3, 8, 1 << 20]), "decisions": None}
+            "capacity": rng.choice([1, 1, 2, 3, 8, 1 << 20]), "decisions": None,
+            "cache_size": cache_size if nprob > 1 else 128}
     r_sweep = rng.random()
     if r_sweep >= 0.9:
         # generation race: two threads generate two DIFFERENT never-seen kernels at the same time; the
@@ -529,6 +533,23 @@ def _state_diff(a, b):
     return names
 
 
+def _set_cache_size(_porcelain, size, res):
+    """Capacity knob of the kernel cache ("buggify"): re-wrap the cached function with another
+    maxsize.  Left alone (and recorded) if the cache is not an lru_cache any more."""
+    import functools
+
+    cur = getattr(_porcelain, "cachable_tensor_method", None)
+    inner = getattr(cur, "__wrapped__", None)
+    if inner is None or not hasattr(cur, "cache_parameters"):
+        if size != 128:
+            res["probes"]["cache_size_knob_unavailable"] = 1
+        return
+    if cur.cache_parameters().get("maxsize") != size:
+        _porcelain.cachable_tensor_method = functools.lru_cache(maxsize=size)(inner)
+    if size != 128:
+        res["probes"]["kernel_cache_capacity_1_or_2"] = 1
+
+
 def _run_once(plan, cfg=None):
     from tensora import Tensor
     from tensora.compile import _porcelain
@@ -548,6 +569,7 @@ def _run_once(plan, cfg=None):
     s = None
     try:
         os.chdir(_state["base_cwd"])
+        _set_cache_size(_porcelain, plan.get("cache_size", 128), res)
         _porcelain.cachable_tensor_method.cache_clear()
         set_capacity(plan["capacity"])
         heap.reset()
@@ -738,8 +760,8 @@ def _run_once(plan, cfg=None):
                    "switches_inside_running_kernel": sum(v for k, v in s.switch_sites.items() if k.startswith("heap.")),
                    "lock_contended": s.probes.get("lock_contended", 0)})
         res["steps"] = s.steps
-        res["probes"] = {k: (1 if k.startswith(("two_threads_in_", "ran_while_")) else v)
-                         for k, v in s.probes.items()}
+        res["probes"].update({k: (1 if k.startswith(("two_threads_in_", "ran_while_")) else v)
+                              for k, v in s.probes.items()})
         for w, c in s.window_hits.items():
             res["probes"]["entered_" + w] = c
         hot_sw = sum(v for k, v in s.switch_sites.items()
